@@ -4,4 +4,5 @@ pub mod c04;
 pub mod c08;
 pub mod c11;
 pub mod c12;
+pub mod c14;
 pub mod c15;
